@@ -28,6 +28,24 @@ ASSUMPTIONS = ["switches are forced only at opcode boundaries of frames under /r
 SELFTESTS = [R.selftest, sched.selftest]
 
 _fresh = itertools.count(70001)
+_ring_size = [24]          # sizes below this have been requested in this process already
+
+
+def _digits(n):
+    from vf.refderive import INDEX
+    d = []
+    while True:
+        d.append(INDEX[n % 16])
+        n //= 16
+        if n == 0:
+            break
+    return d[::-1]
+
+
+def _ring_expected(n):
+    """encoder('C1' + 'C'*(n+1) + '1') by the documented index code (own arithmetic, cf. C16)"""
+    d = _digits(n)
+    return "[C]" * (n + 2) + "[Ring%d]" % len(d) + "".join(d)
 
 
 def _job(kind, text, flags):
@@ -70,17 +88,41 @@ def evaluate(case):
         return _stress(case)
     if case.get("kind") == "cold":
         return _cold(case)
+    # jobs that ask for never-requested ring sizes: any table that is grown lazily grows inside the interleaving;
+    # their results are judged against the documented index code, not against another run
+    ring_jobs = [j for j in jobs if j["kind"] == "enc_ring_fresh"]
+    if ring_jobs:
+        jobs = list(jobs)
+        lo = _ring_size[0]
+        for k, j in enumerate(jobs):
+            if j["kind"] == "enc_ring_fresh":
+                n = _ring_size[0] + j["stride"]
+                _ring_size[0] = n
+                jobs[k] = dict(kind="enc", text="C1" + "C" * (n + 1) + "1", flags={}, ring_n=n)
+        hi = _ring_size[0]
+        if hi > 3500:
+            _ring_size[0] = 24
     # materialise fresh isotopes: {u} in a job's text
     isoA = next(_fresh)
     isoB = next(_fresh)
     isoC = next(_fresh)
     texts = lambda iso: [j["text"].replace("{u}", str(iso)) for j in jobs]  # noqa
-    before = [_alone(j["kind"], t, j.get("flags", {})) for j, t in zip(jobs, texts(isoA))]
+    before = [(None if "ring_n" in j else _alone(j["kind"], t, j.get("flags", {}))) for j, t in zip(jobs, texts(isoA))]
     s = sched.Sched([_job(j["kind"], t, j.get("flags", {})) for j, t in zip(jobs, texts(isoB))], [tuple(x) for x in case["schedule"]])
     conc = s.run()
     after = [_alone(j["kind"], t, j.get("flags", {})) for j, t in zip(jobs, texts(isoC))]
     fail = None
     for k, j in enumerate(jobs):
+        if "ring_n" in j:
+            want = ("ok", _ring_expected(j["ring_n"]))
+            for what, got in (("concurrent", conc[k]), ("after", after[k])):
+                if tuple(got[:2]) != want:
+                    fail = Fail("concurrent_differs_from_documented_code:enc", ring_n=j["ring_n"], phase=what, got=str(got)[-200:],
+                                schedule=case["schedule"][:40])
+                    break
+            if fail:
+                break
+            continue
         b = _norm(before[k], isoA, "U")
         c = _norm(conc[k], isoB, "U")
         a = _norm(after[k], isoC, "U")
@@ -91,11 +133,21 @@ def evaluate(case):
             fail = Fail("concurrent_differs_from_serial:" + j["kind"], job=j, serial=str(b)[:400], concurrent=str(c)[:400],
                         schedule=case["schedule"][:40])
             break
+    if fail is None and ring_jobs:
+        # everything that was grown during the interleaving must now hold the right entries
+        for n in range(max(1, lo - 1), hi + 2):
+            r = _alone("enc", "C1" + "C" * (n + 1) + "1", {})
+            if tuple(r[:2]) != ("ok", _ring_expected(n)):
+                fail = Fail("table_corrupted_by_concurrent_growth:enc", ring_n=n, got=str(r)[-200:], grown=[lo, hi],
+                            schedule=case["schedule"][:40])
+                break
     nontrivial = s.switches_mid_call >= 5
     classes = ["jobs=%d" % len(jobs)]
+    if ring_jobs:
+        classes.append("fresh_ring_sizes_inside_interleaving")
     if any("{u}" in j["text"] for j in jobs):
         classes.append("fresh_symbol_inside_interleaving")
-    if any(j["kind"] == "enc" and ("c" in j["text"] or "n" in j["text"]) for j in jobs):
+    if any(j["kind"] == "enc" and "ring_n" not in j and ("c" in j["text"] or "n" in j["text"]) for j in jobs):
         classes.append("aromatic_job")
     if any(j.get("flags", {}).get("attribute") for j in jobs):
         classes.append("attribute_job")
@@ -176,6 +228,19 @@ def _cold(case):
     elif out["mismatches"]:
         m = out["mismatches"][0]
         fail = Fail("cold:concurrent_differs_from_serial:" + m["job"]["kind"], **m)
+    else:
+        # a race may corrupt a shared table for good, so that the serial run *after* it agrees with the wrong
+        # concurrent results: compare with a serial run in this (other) process as well
+        import json as _json
+        for k, j in enumerate(case["jobs"]):
+            mine = _alone(j["kind"], j["text"], j.get("flags", {}))
+            mine = ["exc", mine[1]] if mine[0] == "exc" else ["ok", _json.loads(_json.dumps(mine[1]))]
+            theirs = out["concurrent_distinct"].get(str(k), []) + [out["serial_after"][k]]
+            bad = [t for t in theirs if t != mine]
+            if bad:
+                fail = Fail("cold:results_differ_from_serial_run_in_another_process:" + j["kind"], job=j, serial=str(mine)[:300],
+                            after_concurrent_start=str(bad[0])[:300])
+                break
     return Result(fail, True, ("cold_start", "threads=%d" % case["threads"]), extra=out["calls"],
                   sample=dict(jobs=case["jobs"][:3], threads=case["threads"], calls=out["calls"]))
 
@@ -197,6 +262,9 @@ def gen_jobs(ch):
             jobs.append(dict(kind="enc", text=ch.pick(ENC_POOL), flags=dict(attribute=ch.bool(30), strict=ch.bool(70))))
     if ch.bool(35):
         jobs[1] = dict(jobs[0])   # the same call twice: maximal sharing
+    if ch.bool(10):
+        for k in range(2):
+            jobs[k] = dict(kind="enc_ring_fresh", stride=ch.int(1, 4))
     return jobs
 
 
@@ -245,7 +313,10 @@ def gen_cold(ch):
 
 
 def gen_stress(ch):
-    return dict(kind="stress", jobs=gen_jobs(ch) + gen_jobs(ch), threads=ch.pick([8, 16]), calls=ch.pick([100, 300]))
+    jobs = [j for j in gen_jobs(ch) + gen_jobs(ch) if j["kind"] != "enc_ring_fresh"]
+    if not jobs:
+        jobs = [dict(kind="dec", text=DEC_POOL[0], flags={})]
+    return dict(kind="stress", jobs=jobs, threads=ch.pick([8, 16]), calls=ch.pick([100, 300]))
 
 
 def shard(ctx):
